@@ -51,6 +51,7 @@ type Contract struct {
 	Preserves []string
 	CalleesPreserve []string
 	NoSafety  bool
+	KeepPre   bool // with nosafety: callee preconditions are still checked
 	AllocBound string
 	InlineDepth int
 	HasMod    bool
@@ -169,6 +170,9 @@ func ParseContractFile(path, pkgPath string) ([]*Contract, error) {
 			cur.AllocBound = strings.TrimSpace(p.text)
 		case "nosafety":
 			cur.NoSafety = true
+			if strings.TrimSpace(p.text) == "keep-pre" {
+				cur.KeepPre = true
+			}
 		case "inline-depth":
 			n, err := strconv.Atoi(strings.TrimSpace(p.text))
 			if err != nil {
